@@ -21,6 +21,10 @@ Record handshake := {
 Definition split_comma_header (v : bytes) : result (E:=exn) (list bytes) :=
   if is_ascii v then Ok (map str_strip (split1 44 v)) else Raise EUnicodeDecode.
 
+(* _split_tokens: a value that is not ASCII is not a list of tokens - nothing is offered or asked for *)
+Definition split_tokens (v : bytes) : list bytes :=
+  match split_comma_header v with Ok l => l | Raise _ => [] end.
+
 Fixpoint scan_handshake (hs : list header) (h : handshake) : result (E:=exn) handshake :=
   match hs with
   | [] => Ok h
@@ -28,23 +32,17 @@ Fixpoint scan_handshake (hs : list header) (h : handshake) : result (E:=exn) han
       let n' := lower n in
       let upd :=
         if beqb n' (B "connection") then
-          match split_comma_header v with
-          | Ok l => Ok {| hk_accepted := hk_accepted h; hk_http_version := hk_http_version h; hk_tokens := Some l; hk_exts := hk_exts h;
-                          hk_key := hk_key h; hk_subs := hk_subs h; hk_upgrade := hk_upgrade h; hk_wsversion := hk_wsversion h |}
-          | Raise e => Raise e end
+          Ok {| hk_accepted := hk_accepted h; hk_http_version := hk_http_version h; hk_tokens := Some (split_tokens v); hk_exts := hk_exts h;
+                hk_key := hk_key h; hk_subs := hk_subs h; hk_upgrade := hk_upgrade h; hk_wsversion := hk_wsversion h |}
         else if beqb n' (B "sec-websocket-extensions") then
-          match split_comma_header v with
-          | Ok l => Ok {| hk_accepted := hk_accepted h; hk_http_version := hk_http_version h; hk_tokens := hk_tokens h; hk_exts := Some l;
-                          hk_key := hk_key h; hk_subs := hk_subs h; hk_upgrade := hk_upgrade h; hk_wsversion := hk_wsversion h |}
-          | Raise e => Raise e end
+          Ok {| hk_accepted := hk_accepted h; hk_http_version := hk_http_version h; hk_tokens := hk_tokens h; hk_exts := Some (split_tokens v);
+                hk_key := hk_key h; hk_subs := hk_subs h; hk_upgrade := hk_upgrade h; hk_wsversion := hk_wsversion h |}
         else if beqb n' (B "sec-websocket-key") then
           Ok {| hk_accepted := hk_accepted h; hk_http_version := hk_http_version h; hk_tokens := hk_tokens h; hk_exts := hk_exts h;
                 hk_key := Some v; hk_subs := hk_subs h; hk_upgrade := hk_upgrade h; hk_wsversion := hk_wsversion h |}
         else if beqb n' (B "sec-websocket-protocol") then
-          match split_comma_header v with
-          | Ok l => Ok {| hk_accepted := hk_accepted h; hk_http_version := hk_http_version h; hk_tokens := hk_tokens h; hk_exts := hk_exts h;
-                          hk_key := hk_key h; hk_subs := Some l; hk_upgrade := hk_upgrade h; hk_wsversion := hk_wsversion h |}
-          | Raise e => Raise e end
+          Ok {| hk_accepted := hk_accepted h; hk_http_version := hk_http_version h; hk_tokens := hk_tokens h; hk_exts := hk_exts h;
+                hk_key := hk_key h; hk_subs := Some (split_tokens v); hk_upgrade := hk_upgrade h; hk_wsversion := hk_wsversion h |}
         else if beqb n' (B "sec-websocket-version") then
           Ok {| hk_accepted := hk_accepted h; hk_http_version := hk_http_version h; hk_tokens := hk_tokens h; hk_exts := hk_exts h;
                 hk_key := hk_key h; hk_subs := hk_subs h; hk_upgrade := hk_upgrade h; hk_wsversion := Some v |}
